@@ -1,11 +1,13 @@
 import Driver.Util
 import Driver.Bip
 import Driver.WsDecode
+import Driver.WsWrite
 
 open Driver
 
 def components : List (String × (Script → Result)) :=
   [("bip", Driver.Bip.check),
-   ("wsdecode", Driver.WsDecode.check)]
+   ("wsdecode", Driver.WsDecode.check),
+   ("wswrite", Driver.WsWrite.check)]
 
 def main (args : List String) : IO UInt32 := Driver.mainWith components args
